@@ -216,3 +216,7 @@ b("b-c14-zero-count-after-lookup", "C14,C13,C12,C19,C20", [("src/helpers/syscall
   "                // Maybe another hook will handle this fd\n                None => return Ok(HookResult::Unhandled),\n            };\n\n            debug_log!(\n                \"Running native read syscall for pipe with fd {}, buf {:#x}, count {}\",",
   "                // Maybe another hook will handle this fd\n                None => return Ok(HookResult::Unhandled),\n            };\n\n            if count == 0 {\n                // nothing is delivered and nothing leaves the pipe; the buffer is not looked at\n                ax.reg_write_64(RAX, 0)?;\n                return Ok(HookResult::Handled);\n            }\n\n            debug_log!(\n                \"Running native read syscall for pipe with fd {}, buf {:#x}, count {}\",")],
   "a zero-length read on a pipe end returns 0 early, after the descriptor was found (the corrected form of seeded change S55)")
+
+m("c01-adc-imm8-zero-extended", "C01", "src/instructions/adc.rs", "calculate_rm_imm![u16f; self; i; |d:u16, s:u16| {\n            let result = (d as u32).wrapping_add(s as u32).wrapping_add(u32::from(flags & FLAG_CF != 0));",
+  "calculate_rm_imm![u16f; u8; self; i; |d:u16, s:u8| {\n            let result = (d as u32).wrapping_add(s as u32).wrapping_add(u32::from(flags & FLAG_CF != 0));", "C01.ring",
+  "the defect repaired by 00651a2 re-introduced: the imm8 of ADC r/m16 is zero-extended", nth=2)
